@@ -50,8 +50,16 @@ BROAD = ["C01", "C02", "C03", "C06", "C07", "C08", "C09", "C15", "C18", "C19"]
 
 
 def sh(cmd, cwd=None, env=None, timeout=None):
-    p = subprocess.run(cmd, cwd=cwd, env=env, shell=isinstance(cmd, str), stdout=subprocess.PIPE, stderr=subprocess.STDOUT, text=True, timeout=timeout)
-    return p.returncode, p.stdout
+    import signal
+    p = subprocess.Popen(cmd, cwd=cwd, env=env, shell=isinstance(cmd, str), stdout=subprocess.PIPE, stderr=subprocess.STDOUT, text=True,
+                         start_new_session=True)
+    try:
+        out, _ = p.communicate(timeout=timeout)
+    except subprocess.TimeoutExpired:
+        os.killpg(p.pid, signal.SIGKILL)     # the whole group: a looping test binary must not linger
+        p.communicate()
+        raise
+    return p.returncode, out
 
 
 def nontest_lines(path):
@@ -198,13 +206,13 @@ def filter_worker(k, items, outfh):
             continue
         t0 = time.time()
         try:
-            rc, out = sh("cargo test --offline --lib -q 2>&1 | tail -5", cwd=wt, env=env, timeout=600)
+            rc, out = sh("cargo test --offline --lib -q 2>&1 | tail -5", cwd=wt, env=env, timeout=120)
             ok_lib = "test result: ok" in out
             status = "survived"
             if not ok_lib:
                 status = "killed-compile" if "error" in out and "test result" not in out else "killed-tests"
             else:
-                rc, out2 = sh("cargo test --offline --doc -q 2>&1 | tail -5", cwd=wt, env=env, timeout=600)
+                rc, out2 = sh("cargo test --offline --doc -q 2>&1 | tail -5", cwd=wt, env=env, timeout=120)
                 if "test result: ok" not in out2:
                     status = "killed-doctests"
         except subprocess.TimeoutExpired:
